@@ -280,6 +280,8 @@ class Check:
         os.makedirs(os.path.join(ROOT, "evidence"), exist_ok=True)
         if self.replay:
             self.do_replay()
+        for f in os.listdir(os.path.join(ROOT, "replays", pid)):   # replays of earlier runs are stale
+            os.remove(os.path.join(ROOT, "replays", pid, f))
 
     def do_replay(self):
         """Re-run the cases of a replay file on the implementation built from the current tree."""
